@@ -45,8 +45,7 @@ type wdrWorld struct {
 }
 
 func wdrCensus() int {
-	return countStacks("cluster.(*deploymentWithdrawal)") + countStacks("go-lifecycle.(*lifecycle).WatchChannel") +
-		countStacks("pubsub.(*bus).run")
+	return countStacks("cluster.(*deploymentWithdrawal)", "go-lifecycle.(*lifecycle).WatchChannel", "pubsub.(*bus).run")
 }
 
 func newWdrWorld(out *vcommon.Writer, run int, free bool) *wdrWorld {
